@@ -183,6 +183,7 @@ def native_end_to_end(tier):
     import sys
     import tempfile
     from cutplace import applications
+    from cutplace import validio, errors as cerrors
     failures = []
     samples = []
     n = 0
@@ -197,6 +198,11 @@ def native_end_to_end(tier):
         for name, text in files.items():
             paths[name] = os.path.join(d, name + ".csv")
             open(paths[name], "w").write(text)
+        # files the container reader itself gives up on (exit code 1 like any rejected file, never an internal error)
+        broken = {"rejected-undecodable-byte-early": b"\x81\n", "rejected-unterminated-quote": b'a\n"b\n'}
+        for name, payload in broken.items():
+            paths[name] = os.path.join(d, name + ".csv")
+            open(paths[name], "wb").write(payload)
         paths["missing"] = os.path.join(d, "no-such-file.csv")
         paths["directory"] = d
 
@@ -215,7 +221,8 @@ def native_end_to_end(tier):
             for combo in itertools.permutations(names, k):
                 combos.append(combo)
         if tier == "quick":
-            combos = combos[:1] + combos[1:7] + combos[7::3]
+            k1 = 1 + len(names)
+            combos = combos[:k1] + combos[k1::5]
         for cid_kind, cid_path in (("valid", good_cid), ("rejected", bad_cid), ("missing", os.path.join(d, "nocid.csv"))):
             for combo in (combos if cid_kind == "valid" else combos[:3]):
                 n += 1
@@ -231,6 +238,36 @@ def native_end_to_end(tier):
                         cid_kind, combo, code, exp), args=dict(cid=cid_kind, files=list(combo))))
                 elif len(samples) < 2:
                     samples.append(dict(query="native/e2e", cid=cid_kind, files=list(combo), exit_code=code))
+        # the container reader gives up far into a large file (beyond the first decoded block): still exit code 1
+        plain_cid = os.path.join(d, "plain_cid.csv")
+        open(plain_cid, "w").write("d,format,delimited\nf,k,,,1\nf,v,,X\n")
+        many = b"".join(b"a,%d\n" % i for i in range(5000))
+        late = {"undecodable byte late": many + b"a,\x81\n" + b"b,\n", "unterminated quote late": many + b'a,"x\n',
+                "undecodable byte inside a quoted multi-line cell": many + b'a,"x\ny\x81"\n', "healthy": many,
+                "NUL late": many + b"a,\x00\n"}
+        for name, payload in late.items():
+            n += 1
+            lp = os.path.join(d, "late.csv")
+            open(lp, "wb").write(payload)
+            try:
+                validio.validate(plain_cid, lp)
+                exp = 0
+            except cerrors.DataError:
+                exp = 1
+            except Exception as e:  # noqa
+                failures.append(dict(key="exit-code-e2e", what="large file (%s): validate() raised %s: %s" % (name, type(e).__name__, e),
+                                     args=dict(case=name)))
+                exp = 1
+            for argv_files in ([lp], [paths["accepted"], lp]):
+                with contextlib.redirect_stderr(io.StringIO()):
+                    try:
+                        code = applications.main(["cutplace", "--log", "critical", plain_cid] + argv_files)
+                    except SystemExit as e:
+                        code = "exit%s" % e.code
+                expc = exp if argv_files == [lp] else max(exp, 1)  # 'accepted' has one column: rejected under this CID
+                if code != expc:
+                    failures.append(dict(key="exit-code-e2e", what="large file (%s) -> exit code %r, expected %r (the API %s it)" % (
+                        name, code, expc, "rejects" if exp else "accepts"), args=dict(case=name)))
         # an unreadable file stays exit code 3 whatever the end-of-data checks of the CID would say about no data
         strict_cid = os.path.join(d, "strict_cid.csv")
         open(strict_cid, "w").write("d,format,delimited\nf,k,,,1\nc,some,DistinctCount,k >= 1\n")
@@ -255,7 +292,26 @@ def native_end_to_end(tier):
             if code != exp:
                 failures.append(dict(key="exit-code-e2e", what="header CID with DistinctCount >= 2, files %r -> exit code %r, expected %r" % (
                     [os.path.basename(x) for x in combo], code, exp), args=dict(files=[os.path.basename(x) for x in combo])))
-        # --until: same effect as the API's limit
+        # --until N has the effect of the API's validate_until=N, whatever the header
+        for header in (0, 1, 2):
+            ucid = os.path.join(d, "until_cid_%d.csv" % header)
+            open(ucid, "w").write("d,format,delimited\nd,header,%d\nf,k,,,1\n" % header)
+            for bad_row in (1, 2, 3, 4, 6):
+                udata = os.path.join(d, "until_data.csv")
+                open(udata, "w").write("".join("toolong\n" if i == bad_row else "a\n" for i in range(1, 7)))
+                for until in (-1, 0, 1, 2, 3, 4, 5, 6, 7):
+                    n += 1
+                    try:
+                        validio.validate(ucid, udata, validate_until=None if until == -1 else until)
+                        exp = 0
+                    except cerrors.DataError:
+                        exp = 1
+                    with contextlib.redirect_stderr(io.StringIO()):
+                        code = applications.main(["cutplace", "--log", "critical", "--until", str(until), ucid, udata])
+                    if code != exp:
+                        failures.append(dict(key="exit-code-until", what="header %d, bad row %d, --until %d -> exit code %r; "
+                                             "validate(validate_until=...) says %r" % (header, bad_row, until, code, exp),
+                                             args=dict(header=header, bad_row=bad_row, until=until)))
         lim = os.path.join(d, "limit.csv")
         open(lim, "w").write("a\nb\ntoolong\nc\n")
         for until, exp in ((None, 1), (-1, 1), (0, 0), (1, 0), (2, 0), (3, 1), (9, 1)):
